@@ -271,7 +271,8 @@ def predicate(ctx, optic, case, rec, w, slack=1e-15):
             rmax2, rmin2 = ap[0] ** 2, ap[1] ** 2
             with np.errstate(invalid='ignore'):
                 ins = ((r2 <= rmax2) & (r2 >= rmin2)).astype(float)
-                amb = np.abs(r2 - rmax2) <= 1e-9 * max(rmax2, 1.0)
+                # (a pure obscuration has r_max = inf: no outer edge to be near to)
+                amb = (np.abs(r2 - rmax2) <= 1e-9 * max(rmax2, 1.0)) if math.isfinite(rmax2) else np.zeros(nray, dtype=bool)
                 if ap[1] > 0:
                     amb |= np.abs(r2 - rmin2) <= 1e-9 * max(rmin2, 1.0)
         chk = alive & ~amb
